@@ -199,7 +199,9 @@ def validateBasic : Msg → Bool
   | .createVA src to amount startS endS =>
     (match amount with
      | none => false
-     | some c => !anyNil c && !(unopt c).any (·.2 < 0)) && src.s ≠ to.s && !(startS > endS) && src.ok && to.ok
+     | some c => !anyNil c && !(unopt c).any (·.2 < 0)) && src.s ≠ to.s && !(startS > endS) &&
+      -- D37 repair: the vesting span must fit into int64 (the SDK computes EndTime - StartTime in int64)
+      !(endS - startS > 9223372036854775807) && src.ok && to.ok
   | .split src to amount =>
     (match amount with
      | none => false
